@@ -18,6 +18,18 @@ NS_XHTML = "{http://www.w3.org/1999/xhtml}"
 NS_NCX = "{http://www.daisy.org/z3986/2005/ncx/}"
 
 
+STRICT = {
+    NS_MAIN: "{http://purl.oclc.org/ooxml/spreadsheetml/main}",
+    NS_R: "{http://purl.oclc.org/ooxml/officeDocument/relationships}",
+    NS_P: "{http://purl.oclc.org/ooxml/presentationml/main}",
+    NS_A: "{http://purl.oclc.org/ooxml/drawingml/main}",
+}
+
+
+def _ns(ns, strict):
+    return STRICT[ns] if strict else ns
+
+
 class AuditError(Exception):
     pass
 
@@ -62,7 +74,7 @@ def _rels(docs, part):
     return out
 
 
-def _opc_common(names, docs, main_part, absent=()):
+def _opc_common(names, docs, main_part, absent=(), strict=False):
     _need("[Content_Types].xml" in docs and "_rels/.rels" in docs, "missing OPC infrastructure")
     ct = docs["[Content_Types].xml"]
     defaults = {d.get("Extension") for d in ct.findall(NS_CT + "Default")}
@@ -76,6 +88,10 @@ def _opc_common(names, docs, main_part, absent=()):
     root = _rels(docs, "")
     mains = [t for (ty, t) in root.values() if ty.endswith("/officeDocument")]
     _need(mains == [main_part], "root relationship does not name %s" % main_part)
+    fam = "http://purl.oclc.org/ooxml/" if strict else "http://schemas.openxmlformats.org/officeDocument/2006/"
+    for ty, _ in root.values():
+        if ty.endswith("/officeDocument"):
+            _need(ty.startswith(fam), "officeDocument relationship type %s is not of the %s family" % (ty, fam))
     # every relationship target of every part exists
     for n in names:
         if n.endswith(".rels"):
@@ -84,11 +100,13 @@ def _opc_common(names, docs, main_part, absent=()):
             _need(t in names or t in absent, "%s: relationship %s targets missing part %s" % (n, rid, t))
 
 
-def audit_xlsx(path, members, declared=None, cells=None, absent=()):
+def audit_xlsx(path, members, declared=None, cells=None, absent=(), strict=False):
     """declared: expected list of (sheet name, part name) in workbook order.
     cells: per declared sheet, sorted list of 'REF=kind=content'."""
     z, names, docs = _open(path, members)
-    _opc_common(names, docs, "xl/workbook.xml", absent)
+    _opc_common(names, docs, "xl/workbook.xml", absent, strict)
+    NS_MAIN, NS_R = _ns(globals()["NS_MAIN"], strict), _ns(globals()["NS_R"], strict)
+    _need(docs["xl/workbook.xml"].tag == NS_MAIN + "workbook" and (docs["xl/workbook.xml"].get("conformance") == "strict") == strict, "workbook root / conformance attribute")
     for a in absent:
         _need(a not in names, "%s should be absent from the archive" % a)
     wb = docs["xl/workbook.xml"]
@@ -135,10 +153,12 @@ def audit_xlsx(path, members, declared=None, cells=None, absent=()):
     return True
 
 
-def audit_pptx(path, members, declared=None, absent=()):
+def audit_pptx(path, members, declared=None, absent=(), strict=False):
     """declared: expected list of (part name, token) in slide-list order."""
     z, names, docs = _open(path, members)
-    _opc_common(names, docs, "ppt/presentation.xml", absent)
+    _opc_common(names, docs, "ppt/presentation.xml", absent, strict)
+    NS_P, NS_R, NS_A = _ns(globals()["NS_P"], strict), _ns(globals()["NS_R"], strict), _ns(globals()["NS_A"], strict)
+    _need(docs["ppt/presentation.xml"].tag == NS_P + "presentation" and (docs["ppt/presentation.xml"].get("conformance") == "strict") == strict, "presentation root / conformance attribute")
     for a in absent:
         _need(a not in names, "%s should be absent from the archive" % a)
     pr = docs["ppt/presentation.xml"]
